@@ -24,9 +24,12 @@ import (
 	"net/http"
 	"net/http/httptest"
 	"net/url"
+	"regexp"
 	"sort"
+	"strconv"
 	"strings"
 	"testing"
+	"time"
 
 	"github.com/Cloud-Foundations/keymaster/lib/paths"
 )
@@ -314,7 +317,97 @@ func (env *verifEnv) c10HeaderMemberVariants(orig *symTok, stride, phase int) []
 	return out
 }
 
-func c10TokenStage(t *testing.T, env *verifEnv, res *verifResult, rng *rand.Rand) {
+// ---------------------------------------------------------------- claim access: model vs getAuthInfoFromAuthJWT
+//
+// Well-signed tokens with type-confused / dropped claims: the real claim extraction (go-jose decoding
+// into authInfoJWT, then keymaster's comparisons and Audience[0]) against Model.ClaimAccess.get_auth_info
+// on the same payload.
+
+var c10IntRE = regexp.MustCompile(`^-?[0-9]+$`)
+
+func coqJSON(v interface{}) string {
+	switch x := v.(type) {
+	case nil:
+		return "JNull"
+	case bool:
+		return "(JBool " + coqBool(x) + ")"
+	case json.Number:
+		if c10IntRE.MatchString(string(x)) {
+			if i, err := strconv.ParseInt(string(x), 10, 64); err == nil {
+				return fmt.Sprintf("(JNum true %s)", coqZ(i))
+			}
+		}
+		return "(JNum false 0%Z)"
+	case string:
+		return "(JStr " + coqPacked([]byte(x)) + ")"
+	case []interface{}:
+		var el []string
+		for _, e := range x {
+			el = append(el, coqJSON(e))
+		}
+		return "(JArr [" + strings.Join(el, "; ") + "])"
+	case map[string]interface{}:
+		var ks []string
+		for k := range x {
+			ks = append(ks, k)
+		}
+		sort.Strings(ks)
+		var el []string
+		for _, k := range ks {
+			el = append(el, "("+coqPacked([]byte(k))+", "+coqJSON(x[k])+")")
+		}
+		return "(JObj [" + strings.Join(el, "; ") + "])"
+	}
+	return "JNull"
+}
+
+func (env *verifEnv) c10ClaimAccessCases(res *verifResult, toks []*symTok) (cases, idx []string) {
+	for _, tok := range toks {
+		if tok == nil || tok.tampered {
+			continue
+		}
+		parts := strings.Split(tok.raw, ".")
+		if len(parts) != 3 {
+			continue
+		}
+		pb, err := b64d(parts[1])
+		if err != nil {
+			continue
+		}
+		var payload interface{}
+		dec := json.NewDecoder(strings.NewReader(string(pb)))
+		dec.UseNumber()
+		if dec.Decode(&payload) != nil {
+			continue
+		}
+		now := time.Now().Unix()
+		var info authInfo
+		var gerr error
+		panicked := false
+		func() {
+			defer func() {
+				if p := recover(); p != nil {
+					panicked = true
+				}
+			}()
+			info, gerr = env.state.getAuthInfoFromAuthJWT(tok.raw)
+		}()
+		res.eval("claim-access|"+tok.note+"|"+fmt.Sprint(gerr == nil), gerr == nil)
+		res.bump("claim-access")
+		if panicked {
+			res.hit(verifHit{Key: "C10:panic:claim-access", Oracle: "panic", What: "getAuthInfoFromAuthJWT panicked on a well-signed token (" + tok.note + ")", Case: map[string]interface{}{"token": tok.raw, "note": tok.note}})
+		}
+		obs := "None"
+		if gerr == nil && !panicked {
+			obs = fmt.Sprintf("(Some (%s, %s, %s, %s))", coqPacked([]byte(info.Username)), coqZ(int64(info.AuthType)), coqZ(info.ExpiresAt.Unix()), coqZ(info.IssuedAt.Unix()))
+		}
+		cases = append(cases, fmt.Sprintf("(%s, %s, %s, %s)", coqJSON(payload), coqZ(now), coqBool(panicked), obs))
+		idx = append(idx, fmt.Sprintf("claim-access note=%q accepted=%v payload=%s", tok.note, gerr == nil, string(pb)))
+	}
+	return cases, idx
+}
+
+func c10TokenStage(t *testing.T, env *verifEnv, res *verifResult, rng *rand.Rand) (claimCases, claimIdx []string) {
 	p := env.c04Produce(t)
 	genuine := []*symTok{p.session, p.sessionLogin, p.cli, p.cliPage, p.storage, p.code, p.access, p.id}
 	// a second authorization code, bound to the PKCE client with a challenge
@@ -329,6 +422,14 @@ func c10TokenStage(t *testing.T, env *verifEnv, res *verifResult, rng *rand.Rand
 		}
 		corpus = append(corpus, g)
 		vars := env.c10ClaimVariants(g)
+		if g == p.session || g == p.sessionLogin || verifThorough() {
+			// every type confusion of the session token's claims (and, thorough, of every kind) goes to the claim-access model
+			cc, ci := env.c10ClaimAccessCases(res, append([]*symTok{g}, vars...))
+			claimCases, claimIdx = append(claimCases, cc...), append(claimIdx, ci...)
+		} else {
+			cc, ci := env.c10ClaimAccessCases(res, []*symTok{g})
+			claimCases, claimIdx = append(claimCases, cc...), append(claimIdx, ci...)
+		}
 		if !verifThorough() {
 			// quick: every dropped / only-claim variant, a third of the type confusions
 			var keep []*symTok
@@ -380,4 +481,6 @@ func c10TokenStage(t *testing.T, env *verifEnv, res *verifResult, rng *rand.Rand
 	}
 	res.Extra["token_corpus"] = len(corpus)
 	res.Extra["token_sinks"] = len(sinks)
+	res.Extra["claim_access_cases"] = len(claimCases)
+	return claimCases, claimIdx
 }
